@@ -51,10 +51,43 @@ theorem good_message_runs_the_critical_section (l : Logger) (id : String) (t : N
   · intro hf; simp [Logger.recordRequest, hf]
   · intro hf; simp [Logger.recordResponse, hf]
 
+/-- "Each response attached to its own request" whatever the response is.  For EVERY message
+    whose body can be read and decoded — any status code (1xx, 101, 204, 304, 4xx, 5xx, 0, 999 …),
+    any header and cookie shape, any body (`content`), any Content-Type, under ANY logging options —
+    RecordResponse succeeds and its effect on the log is the attachment to the entry with that ID;
+    two such messages are interchangeable.  (The seeded defect C17-F returned early for 1xx.) -/
+theorem attachment_independent_of_message_content (l : Logger) (id : String) (t : Nat) (lg : Log)
+    (hr : Reach l.heap lg) (framed : Bool) (ctype : String) (content : Nat) :
+    (l.recordResponse id t ⟨framed, ctype, .none, content⟩).2 = .ok ∧
+    Reach (l.recordResponse id t ⟨framed, ctype, .none, content⟩).1.heap (Spec.res lg id t) ∧
+    (∀ framed' ctype' content', l.recordResponse id t ⟨framed', ctype', .none, content'⟩ =
+      l.recordResponse id t ⟨framed, ctype, .none, content⟩) := by
+  have h : ∀ f c k, l.recordResponse id t ⟨f, c, .none, k⟩ =
+      (⟨l.cfg, recordResponse l.heap id t⟩, .ok) := by
+    intro f c k; simp [Logger.recordResponse, newResponseFails]
+  refine ⟨by rw [h], ?_, fun f c k => by rw [h, h]⟩
+  rw [h]
+  exact (step_sim l.heap lg t (.res id) hr).1
+
+/-- The same for requests: every loggable request (any method — CONNECT, HEAD, … —, URL, headers,
+    cookies, body) is appended if its ID is fresh and rejected as a duplicate otherwise; nothing
+    else about it matters. -/
+theorem request_recording_independent_of_message_content (l : Logger) (id : String) (t : Nat) (lg : Log)
+    (hr : Reach l.heap lg) (framed : Bool) (ctype : String) (content : Nat) :
+    (l.recordRequest id t ⟨framed, ctype, .none, content⟩).2 = (Spec.req lg id t).2 ∧
+    Reach (l.recordRequest id t ⟨framed, ctype, .none, content⟩).1.heap (Spec.req lg id t).1 ∧
+    (∀ framed' ctype' content', l.recordRequest id t ⟨framed', ctype', .none, content'⟩ =
+      l.recordRequest id t ⟨framed, ctype, .none, content⟩) := by
+  have h : ∀ f c k, l.recordRequest id t ⟨f, c, .none, k⟩ =
+      (⟨l.cfg, (recordRequest l.heap id t).1⟩, (recordRequest l.heap id t).2) := by
+    intro f c k; simp [Logger.recordRequest, newRequestFails]
+  have hs := step_sim l.heap lg t (.req id) hr
+  refine ⟨by rw [h]; exact hs.2, by rw [h]; exact hs.1, fun f c k => by rw [h, h]⟩
+
 /-- A body that is not read cannot fail the call: a request without Content-Length /
     Transfer-Encoding, and any message whose body is not logged under the options in force. -/
 theorem unread_body_never_fails (withBody : Bool) (ct : String) (f : Fault) (m : Msg) :
-    newRequestFails withBody ⟨false, ct, f⟩ = false ∧
+    newRequestFails withBody ⟨false, ct, f, 0⟩ = false ∧
     newRequestFails false m = false ∧ newResponseFails false m = false := by
   simp [newRequestFails, newResponseFails]
 
@@ -185,20 +218,20 @@ theorem api_each_response_attached_to_own_request (cs : List Call) (es : List En
 /-- C17-D's history: request a; response a whose body fails; export-and-reset; export; a good
     response; export-and-reset.  The entry survives the failure and is returned once completed. -/
 example : Logger.run Logger.init 0
-    [.req "a" Msg.plain, .res "a" ⟨false, "", .read⟩, .xreset, .exp, .req "a" Msg.plain,
+    [.req "a" Msg.plain, .res "a" ⟨false, "", .read, 0⟩, .xreset, .exp, .req "a" Msg.plain,
      .res "a" Msg.plain, .xreset, .exp]
     = [.ok, .err, .log [], .log [⟨"a", 0, none⟩], .dup, .ok, .log [⟨"a", 0, some 5⟩], .log []] := by decide
 
 /-- the message error comes before the duplicate check; with logging off the same call is a
     plain duplicate; an unframed request is never read. -/
 example : Logger.run Logger.init 0
-    [.req "a" Msg.plain, .req "a" ⟨true, "", .read⟩, .setPost (.all false), .req "a" ⟨true, "", .read⟩,
-     .req "b" ⟨true, "", .decode⟩, .setPost (.all true), .req "c" ⟨false, "", .read⟩, .exp]
+    [.req "a" Msg.plain, .req "a" ⟨true, "", .read, 0⟩, .setPost (.all false), .req "a" ⟨true, "", .read, 0⟩,
+     .req "b" ⟨true, "", .decode, 0⟩, .setPost (.all true), .req "c" ⟨false, "", .read, 0⟩, .exp]
     = [.ok, .err, .ok, .dup, .ok, .ok, .ok, .log [⟨"a", 0, none⟩, ⟨"b", 4, none⟩, ⟨"c", 6, none⟩]] := by decide
 
 /-- hypotheses of `failed_response_keeps_entry_pending` are satisfiable. -/
 example : (⟨"a", 0, none⟩ : Ent) ∈ logAfter (criticals Cfg.default [.req "a" Msg.plain]) ∧
-    newResponseFails ((cfgAfter Cfg.default [.req "a" Msg.plain]).bodyLog.eval "") ⟨false, "", .read⟩ = true := by
+    newResponseFails ((cfgAfter Cfg.default [.req "a" Msg.plain]).bodyLog.eval "") ⟨false, "", .read, 0⟩ = true := by
   decide
 
 end Martian.Props.C17
